@@ -169,11 +169,11 @@ def effOptional (fs : FieldSp) : Bool :=
   fs.inOptional || (fs.mode == .ann && !isFieldExpr fs.ty && hasNoneOpt (denote fs.ty))
 
 /-- documented meaning of a field declaration: the default (if any) must be valid for the field; a
-    field is required iff it has no default and is not optional -/
+    field is required iff it has no default (`= None` is not a default) and is not optional -/
 def fieldMeaning (O : Oracles) (fs : FieldSp) : R FieldRes :=
   match fs.dflt.value with
   | Option.none => .ok (.field (denote fs.ty) (!effOptional fs) Option.none)
-  | some v => bindE (tryDefault O (denote fs.ty) v) fun _ => .ok (.field (denote fs.ty) false (some v))
+  | some v => bindE (tryDefault O (denote fs.ty) v) fun _ => .ok (eqResult (denote fs.ty) (effOptional fs) v)
 
 /-- the same field in two spellings -/
 structure FieldSame (a b : FieldSp) : Prop where
@@ -195,7 +195,7 @@ def fieldSupported (O : Oracles) (tm : TypeMap) (_future : Bool) (fs : FieldSp) 
       | .assign => isFieldExpr fs.ty)
   && (match fs.dflt with
       | .none => true
-      | .eq v _ => scalarDefault v && fs.mode == .ann
+      | .eq v _ => eqDefault v && fs.mode == .ann
       | .kw v _ => scalarDefault v && kwAllowed fs.ty && (truthy v || defaultOk O (denote fs.ty) v))
 
 /-- the expression only uses documented forms: `items=` is given fields, `None` only appears as
@@ -220,7 +220,7 @@ def documentedField (fs : FieldSp) : Bool :=
   && (match fs.mode with | .ann => true | .assign => isFieldExpr fs.ty)
   && (match fs.dflt with
       | .none => true
-      | .eq v _ => scalarDefault v && fs.mode == .ann
+      | .eq v _ => eqDefault v && fs.mode == .ann
       | .kw v _ => scalarDefault v && kwAllowed fs.ty)
 
 /-- two class bodies declaring the same fields, each in any of its spellings -/
